@@ -48,12 +48,12 @@ def jobs(unit, tier, only=None):
                 bounded = None if cross else 'source strings <= L+3 characters'
                 out.append(Job('c11_%s_%s' % (tag, m.id), fn, 'cw_' + m.id,
                                fs.make_build(unit, m, L, K, True, methods, outside, S2=S2), backend='sat',
-                               unwind=K + L + (S2 or 0) + 4, timeout=600 if tier == 'quick' else 3000, instance=dict(inst, excluded_regions=[r for r in outside]),
+                               unwind=K + L + (S2 or 0) + 4, timeout=900 if tier == 'quick' else 3000, instance=dict(inst, excluded_regions=[r for r in outside]),
                                bounded=bounded))
                 for fid, r in regs:
                     out.append(Job('c11_%s_%s@%s' % (tag, m.id, fid), fn, 'cw_' + m.id,
                                    fs.make_build(unit, m, L, K, True, methods, ['/*in*/ ' + r], S2=S2), backend='sat',
-                                   unwind=K + L + (S2 or 0) + 4, timeout=600 if tier == 'quick' else 3000, instance=dict(inst, inside_region=r),
+                                   unwind=K + L + (S2 or 0) + 4, timeout=900 if tier == 'quick' else 3000, instance=dict(inst, inside_region=r),
                                    bounded=bounded, finding_region=fid))
     if only:
         out = [j for j in out if only in j.name]
